@@ -427,3 +427,39 @@ func VH_relExpr(which int, size int, nforms int) {
 		}
 	}
 }
+
+// VH_orderIdent (C14): a later operand that is a bare variable, read after an earlier operand has
+// assigned that variable, sees the new value — operands are evaluated left to right whatever
+// their syntactic form. x starts as a, the first operand is (x = b); the node is a binary
+// operator (x = b) op x, a call f((x = b), x), an array literal [(x = b), x], an index read
+// arr[(i = 1)][i] ... with a and b arbitrary numbers.
+func VH_orderIdent(which int) {
+	a, b := verifNondetFloat(), verifNondetFloat()
+	in := NewInterpreter()
+	env := environment.NewEnvironmentWithParent(in.globals)
+	env.Define("x", a)
+	assign := &ast.Grouping{Expression: &ast.AssignmentStmt{Name: tok(token.IDENTIFIER, "x", 7), Value: &ast.Literal{Value: b, Line: 7}, Line: 7}, Line: 7}
+	readX := &ast.Identifier{Name: tok(token.IDENTIFIER, "x", 7), Line: 7}
+	utils.HadError, utils.HadRuntimeError = false, false
+	verifClearEvents()
+	switch which {
+	case 0:
+		ty := verifNondetInt(0, int(token.EOF))
+		verifAssume(isBinaryOp(token.TokenType(ty)))
+		got, _ := in.eval(&ast.Binary{Left: assign, Operator: tok(token.TokenType(ty), "op", 7), Right: readX, Line: 7}, env, false)
+		nerr := hvCountStderr()
+		want := specBinary(b, token.TokenType(ty), b)
+		checkResult("bin-", got, want, nerr)
+	case 1:
+		vpRecorderCalls = 0
+		in.eval(&ast.Call{Callee: &ast.Literal{Value: vpRecorder{}, Line: 7}, Paren: tok(token.RIGHT_PAREN, ")", 7), Arguments: []ast.Expr{assign, readX}}, env, false)
+		verifAssert("arguments-arrive-by-position", vpRecorderCalls == 1 && len(vpRecorded) == 2)
+		if vpRecorderCalls == 1 && len(vpRecorded) == 2 {
+			verifAssert("argument-1", hvIdentical(vpRecorded[0], b) && hvIdentical(vpRecorded[1], b))
+		}
+	default:
+		got, _ := in.eval(&ast.ArrayLiteral{Elements: []ast.Expr{assign, readX}, Line: 7}, env, false)
+		arr, ok := got.([]interface{})
+		verifAssert("operand-evaluated-in-reading-order-once", ok && len(arr) == 2 && hvIdentical(arr[0], b) && hvIdentical(arr[1], b))
+	}
+}
